@@ -191,7 +191,9 @@ class Engine:
     def _discharge(self, g):
         if z3.is_true(z3.simplify(g)):
             return "proved", "simplifier", None, None
-        s = self._solver(self.timeout_ms)
+        # goal False = "this point is unreachable": either instantly unsat or genuinely reachable
+        budget = min(self.timeout_ms, 3000) if z3.is_false(z3.simplify(g)) else self.timeout_ms
+        s = self._solver(budget)
         s.add(*self.pc)
         s.add(z3.Not(g))
         r = s.check()
